@@ -46,7 +46,9 @@ def known_match(known, prop, ident, witness=None):
             continue
         if k.get('obligation') and k['obligation'] == ident:
             return k
-        if k.get('clause') and k['clause'] == ident and (k.get('witness') is None or k.get('witness') == witness):
+        if k.get('clause') and k['clause'] == ident and witness is not None and \
+                (k.get('witness_id') == witness.get('witness_id') or
+                 (k.get('witness_class') is not None and k.get('witness_class') == witness.get('witness_class'))):
             return k
     return None
 
@@ -225,9 +227,11 @@ def run_check(prop, tier, seed, t0, a):
             if bounded:
                 for v in bounded.get('violations', []):
                     ident = v['clause']
-                    km = known_match(known, prop, ident, v.get('witness_id'))
+                    km = known_match(known, prop, ident, v)
                     if km:
-                        known_hits.append((f'{ident} {v.get("witness_id")}', km.get('what', '')))
+                        kh = (f'{ident} [{v.get("witness_class")}]', km.get('what', ''))
+                        if kh not in known_hits:
+                            known_hits.append(kh)
                         continue
                     p = write_replay(prop, ident + ':' + str(v.get('witness_id')), dict(property=prop, **v))
                     violations.append((ident, p, ''))
